@@ -1019,6 +1019,12 @@ impl SQLExpression for sql_ast::Expr {
             // `a = b IN (1, 2)` would parse as `(a = b) IN (1, 2)`
             sql_ast::Expr::InList { .. } => 6,
 
+            // a negative number is a number behind a unary minus: `- -5`, never `--5`
+            sql_ast::Expr::Value(sql_ast::ValueWithSpan {
+                value: Value::Number(number, _),
+                ..
+            }) if number.starts_with('-') => UnaryOperator::Minus.binding_strength(),
+
             // all other items types bind stronger (function calls, literals, ...)
             _ => 20,
         }
